@@ -193,4 +193,13 @@ theorem uint_width_sound {s : List Char} {m : Nat} (info : ElemInfo) (hi : info 
   rw [hrow.1, hrow.2.1, hrow.2.2] at hs
   exact ⟨hs.2.1, hs.2.2.1, hs.2.2.2.1 (by decide), hs.1⟩
 
+/-! ### non-vacuity: concrete inputs on which the hypotheses hold (evaluated by the kernel) -/
+def okB {α : Type} : Outcome α → Bool | .ok _ => true | _ => false
+/-- non-vacuity: canonical spellings are accepted, non-canonical and out-of-range ones are not -/
+example : (okB (parseParam (.mk "a" "uint256[2][]" false "" [])) &&
+           okB (parseParam (.mk "a" "tuple[]" false "" [.mk "x" "bytes32" false "" [], .mk "y" "fixed128x18" false "" []])) &&
+           !okB (parseParam (.mk "a" "uint0256" false "" [])) &&
+           !okB (parseParam (.mk "a" "uint257" false "" [])) &&
+           !okB (parseParam (.mk "a" "uint256[" false "" []))) = true := by decide +kernel
+
 end FFS.Props.C13
